@@ -531,6 +531,27 @@ def eval_aliasing(ann, line, other_line):
                 break
         if fails:
             break
+    # the same for the lists a scheme hands out: a caller that edits the names it was given (adds its own output column,
+    # sorts them for a legend) has not changed the layout lines are parsed under.  (On a scheme instance of its own, so
+    # that a broken library cannot spoil the later cases of this run.)
+    if not fails:
+        sch2 = type(sch)()
+        try:
+            handed = sch2.column_names()
+            if isinstance(handed, list):
+                handed.append("my_score")
+                handed.sort()
+        except Exception:  # noqa
+            pass
+        again = MafRecord.from_line(line, scheme=sch2, validation_stringency=VS.Silent)
+        for k, n in enumerate(names):
+            c = col(again, n)
+            got = None if c is None else enc_val(c.value)
+            if got != want[k]:
+                fails.append({"what": "after a caller edited the list handed out by the scheme's column_names(), parsing the same line under that scheme binds column %s to %s "
+                                      "instead of the value its text %r denotes (%s)" % (n, got, line.split("\t")[k], want[k]),
+                              "kind": "aliasing", "scheme": ann, "line": line, "other_line": other_line, "column": n, "edited": ["<scheme>.column_names()"]})
+                break
     # undo (the objects may be shared when the property is broken; keep later cases independent of this one)
     for n in touched:
         c = col(first, n)
